@@ -33,7 +33,9 @@ def wf_source(graph):
         preds = graph["preds"][n]
         deps = "".join(f", d{k+1}={p}.out" for k, p in enumerate(preds))
         k = graph["njobs"][n]
-        if k == 1:
+        if k == 0:      # a node without jobs: split over the empty list
+            lines.append(f"    {n} = workflow.add(Gate(name={n!r}{deps}).split(i=[]).combine('i'), name={n!r})")
+        elif k == 1:
             lines.append(f"    {n} = workflow.add(Gate(name={n!r}, i=1{deps}), name={n!r})")
         else:
             lines.append(f"    {n} = workflow.add(Gate(name={n!r}{deps}).split(i={list(range(1, k + 1))}).combine('i'), name={n!r})")
@@ -265,6 +267,27 @@ CHECK_DEADLOCK FALSE
         if k not in seen:
             seen.add(k)
             out.append(b)
+    return out
+
+
+def pick_schedules(ctx, behs, n):
+    """n behaviours, stratified by graph (round robin), distinct completion orders of a graph first"""
+    groups = {}
+    for b in behs:
+        groups.setdefault(b["graph"]["name"], []).append(b)
+    for name, g in groups.items():
+        ctx.rng.shuffle(g)
+        seen, first, rest = set(), [], []
+        for b in g:
+            k = json.dumps(b["order"])
+            (rest if k in seen else first).append(b)
+            seen.add(k)
+        groups[name] = (first + rest)[::-1]          # popped from the end
+    out = []
+    while len(out) < n and any(groups.values()):
+        for name in sorted(groups):
+            if groups[name] and len(out) < n:
+                out.append(groups[name].pop())
     return out
 
 
